@@ -1,54 +1,135 @@
 import SamplyModel.Proto
 import SamplyModel.Model.SampleTable
+import SamplyModel.Model.SampleTableProfile
 /-!
 Line protocol for C04.
 
-ops (one thread, one counter, calls in the given order; the two tables are independent):
+The profile of every case: process 0 with threads 0 and 1 (in this order), process 1 with thread 2, counters 0 and 1
+(`C04.procs`, `C04.nCounters`; the harness creates the same layout, after a decoy process / thread / counter).
 
-    add <t_ns> <none|k> <cpu_ns> <weight>      Profile::add_sample(thread, t, stack k, CpuDelta::from_nanos(cpu_ns), weight)
-    merge <t_ns> <weight>                      Profile::add_sample_same_stack_zero_cpu(thread, t, weight)
-    addc <t_ns> <value> <n>                    Profile::add_counter_sample(counter, t, value as f64, n)
+ops (calls in the given order; `@<i>` names the thread / counter, no suffix = thread 0 / counter 0):
 
-out (from `serde_json::to_value(&profile)`; times are the running sums of the deltas recovered as integer ns):
+    add[@i] <t_ns> <none|k> <cpu_ns> <weight>   Profile::add_sample(thread i, t, stack k, CpuDelta::from_nanos(cpu_ns), weight)
+    merge[@i] <t_ns> <weight>                   Profile::add_sample_same_stack_zero_cpu(thread i, t, weight)
+    alloc@<i> <t_ns> <none|k> <addr> <size>     Profile::add_allocation_sample(thread i, t, stack k of thread i, addr, size)
+    marker@<i> <t_ns> <none|k>                  Profile::add_marker(thread i, Instant(t), …) + set_marker_stack(…, stack k)
+    wtype@<i> <0|1|2>                           Profile::set_thread_samples_weight_type(thread i, Samples|TracingMs|Bytes)
+    addc[@j] <t_ns> <value> <n>                 Profile::add_counter_sample(counter j, t, value, n)
+    ser                                         serde_json::to_value(&profile), then the history goes on
 
-    len <length> <#stack> <#timeDeltas> <#weight> <#threadCPUDelta>
-    deltas <d>*                                 signed integer ns, `nan` for a non-finite / non-numeric entry
-    row <time> <none|k> <weight> <cpu_us>       in output order; rows of equal time sorted (tie groups are multisets)
-    clen <length> <#count> <#number> <#timeDeltas>
-    cdeltas <d>*
-    crow <time> <count> <number>
+`<value>` is an `f64`: an integer, `-0.0`, or `f<16 hex digits>` = the IEEE-754 bit pattern.
+
+out: for every `ser` and once more at the end (`serde_json::to_value(&profile)`), a block
+
+    snap <k>
+    t<i> len <length> <#stack> <#timeDeltas> <#weight> <#threadCPUDelta>
+    t<i> deltas <d>*                               signed integer ns, `nan` for a non-finite / non-numeric entry
+    t<i> row <time> <none|k> <weight> <cpu_us>     in output order; rows of equal time sorted (tie groups are multisets)
+    t<i> meta <weightType 0|1|2> <number of markers>
+    t<i> allocs <length> <#time> <#weight> <#stack> <#memoryAddress> <#threadId>      only when nativeAllocations exists
+    t<i> arow <time_ns> <none|k> <addr> <size>     in stored order
+    c<j> clen <length> <#count> <#number> <#timeDeltas>
+    c<j> cdeltas <d>*
+    c<j> crow <time> <count> <number>              count: integer | -0.0 | f<bits> | null
+    t<i> empty  /  c<j> empty                      short for an all-empty table (`len 0 0 0 0 0`, no deltas, `meta 0 0`, no allocs)
   or a single line
-    panic op <j>        the j-th (0-based) thread call (add/merge) panicked
-    panic serialize     serialization panicked
+    panic op <j>        the j-th (0-based) op line panicked
+    panic serialize     a serialization panicked
 -/
 namespace C04
-open STab Proto
+open STab STabP Proto
 
-inductive Line
-  | t (op : Op)
-  | c (op : COp)
+/-- thread `i` lives in process `procs[i]` -/
+def procs : List Nat := [0, 0, 1]
+def nThreads : Nat := procs.length
+def nCounters : Nat := 2
+
+/-! ### `f64` tokens -/
+
+/-- the canonical token of the `f64` with bit pattern `b` -/
+def cvalOfBits (b0 : Nat) : CVal :=
+  let b := b0 % 18446744073709551616
+  let neg := b / 9223372036854775808 == 1
+  let e := (b / 4503599627370496) % 2048
+  let m := b % 4503599627370496
+  if e == 0 then (if m == 0 then (if neg then .negZero else .int 0) else .bits b)
+  else if e == 2047 then .bits b
+  else
+    let sig := 4503599627370496 + m
+    if e ≥ 1075 then
+      if e == 1075 ∨ (e == 1076 ∧ m == 0) then
+        let v : Int := Int.ofNat (sig * 2 ^ (e - 1075))
+        .int (if neg then -v else v)
+      else .bits b
+    else
+      let d := 2 ^ (1075 - e)
+      if sig % d == 0 then
+        let v : Int := Int.ofNat (sig / d)
+        .int (if neg then -v else v)
+      else .bits b
+
+def parseHex (s : String) : Option Nat :=
+  s.toList.foldl (fun acc c => match acc, hexDigit? c with
+    | some a, some d => some (a * 16 + d)
+    | _, _ => none) (some 0)
+
+def parseCVal (s : String) : Option CVal :=
+  if s = "-0.0" then some .negZero
+  else if s = "null" then some .null
+  else if s.startsWith "f" then (parseHex (s.drop 1).toString).map cvalOfBits
+  else s.toInt?.map .int
+
+def hex16 (n : Nat) : String :=
+  String.ofList ((List.range 16).reverse.map fun k => hexNibble ((n / 16 ^ k) % 16))
+
+def showCVal : CVal → String
+  | .int v => toString v
+  | .negZero => "-0.0"
+  | .bits b => "f" ++ hex16 b
+  | .null => "null"
+
+/-! ### ops -/
 
 def parseStack (s : String) : Option (Option Nat) :=
   if s = "none" then some none else s.toNat?.map some
 
-def parseLine (l : String) : Option Line :=
-  match words l with
-  | ["add", t, st, c, w] => do
-    let t ← t.toNat?; let st ← parseStack st; let c ← c.toNat?; let w ← w.toInt?
-    pure (.t (.add t st c w))
-  | ["merge", t, w] => do
-    let t ← t.toNat?; let w ← w.toInt?
-    pure (.t (.merge t w))
-  | ["addc", t, v, n] => do
-    let t ← t.toNat?; let v ← v.toInt?; let n ← n.toNat?
-    pure (.c ⟨t, v, n⟩)
+/-- `add@2` ↦ (`add`, 2); `add` ↦ (`add`, 0) -/
+def splitTarget (w : String) : Option (String × Nat) :=
+  match w.splitOn "@" with
+  | [a] => some (a, 0)
+  | [a, i] => i.toNat?.map fun i => (a, i)
   | _ => none
 
-def parse (ls : List String) : Option (List Op × List COp) := do
-  let lines ← ls.mapM parseLine
-  let tops := lines.filterMap fun | .t op => some op | _ => none
-  let cops := lines.filterMap fun | .c op => some op | _ => none
-  pure (tops, cops)
+def parseLine (l : String) : Option POp :=
+  match words l with
+  | [] => none
+  | w :: rest =>
+    match splitTarget w with
+    | none => none
+    | some (tag, i) =>
+      match tag, rest with
+      | "add", [t, st, c, w] => do
+        let t ← t.toNat?; let st ← parseStack st; let c ← c.toNat?; let w ← w.toInt?
+        if i < nThreads then pure (.sample i (.add t st c w)) else none
+      | "merge", [t, w] => do
+        let t ← t.toNat?; let w ← w.toInt?
+        if i < nThreads then pure (.sample i (.merge t w)) else none
+      | "alloc", [t, st, a, sz] => do
+        let t ← t.toNat?; let st ← parseStack st; let a ← a.toNat?; let sz ← sz.toInt?
+        if i < nThreads then pure (.alloc i t st a sz) else none
+      | "marker", [t, st] => do
+        let _ ← t.toNat?; let _ ← parseStack st
+        if i < nThreads then pure (.marker i) else none
+      | "wtype", [k] => do
+        let k ← k.toNat?
+        if i < nThreads ∧ k < 3 then pure (.wtype i k) else none
+      | "addc", [t, v, n] => do
+        let t ← t.toNat?; let v ← parseCVal v; let n ← n.toNat?
+        if i < nCounters then pure (.counter i ⟨t, v, n⟩) else none
+      | "ser", [] => if w = "ser" then some .ser else none
+      | _, _ => none
+
+def parse (ls : List String) : Option (List POp) := ls.mapM parseLine
 
 def showStack : Option Nat → String
   | none => "none"
@@ -68,9 +149,16 @@ def rowLe (a b : LRow) : Bool :=
   else if a.w ≠ b.w then a.w < b.w
   else a.cpu ≤ b.cpu
 
+def cvalKey : CVal → Nat × Int
+  | .int v => (0, v)
+  | .negZero => (1, 0)
+  | .bits b => (2, Int.ofNat b)
+  | .null => (3, 0)
+
 def crowLe (a b : CRow) : Bool :=
   if a.t ≠ b.t then a.t < b.t
-  else if a.value ≠ b.value then a.value < b.value
+  else if (cvalKey a.value).1 ≠ (cvalKey b.value).1 then (cvalKey a.value).1 < (cvalKey b.value).1
+  else if (cvalKey a.value).2 ≠ (cvalKey b.value).2 then (cvalKey a.value).2 < (cvalKey b.value).2
   else a.n ≤ b.n
 
 def showOut (o : Out) : List String :=
@@ -80,28 +168,55 @@ def showOut (o : Out) : List String :=
    joinWords "deltas" (o.deltas.map toString)]
   ++ rows.map fun r => s!"row {r.t} {showStack r.stack} {r.w} {r.cpu}"
 
+/-- an empty counter table is printed as the single line `empty` (= `clen 0 0 0 0`, `cdeltas`) -/
 def showCOut (o : COut) : List String :=
+  if o.count.isEmpty ∧ o.number.isEmpty ∧ o.deltas.isEmpty then ["empty"] else
   let ts := runningSums 0 o.deltas
   let rows := (mkCRows ts o.count o.number).mergeSort crowLe
   [s!"clen {ts.length} {o.count.length} {o.number.length} {o.deltas.length}",
    joinWords "cdeltas" (o.deltas.map toString)]
-  ++ rows.map fun r => s!"crow {r.t} {r.value} {r.n}"
+  ++ rows.map fun r => s!"crow {r.t} {showCVal r.value} {r.n}"
+
+def zip4 : List Nat → List (Option Nat) → List Nat → List Int → List (Nat × Option Nat × Nat × Int)
+  | t :: ts, s :: ss, a :: as, z :: zs => (t, s, a, z) :: zip4 ts ss as zs
+  | _, _, _, _ => []
+
+def showAllocs (a : AllocTable) : List String :=
+  let n := a.time.length
+  [s!"allocs {n} {a.time.length} {a.size.length} {a.stack.length} {a.addr.length} {n}"]
+  ++ (zip4 a.time a.stack a.addr a.size).map fun (t, s, ad, z) => s!"arow {t} {showStack s} {ad} {z}"
+
+/-- a thread nothing has happened to is printed as the single line `empty` (= `len 0 0 0 0 0`, `deltas`, `meta 0 0`, no
+`allocs`) -/
+def showTSnap (t : TSnap) : List String :=
+  if t.samples.stack.isEmpty ∧ t.samples.deltas.isEmpty ∧ t.samples.weight.isEmpty ∧ t.samples.cpu.isEmpty
+      ∧ t.wtype = 0 ∧ t.markers = 0 ∧ t.allocs.isNone then ["empty"]
+  else
+    showOut t.samples ++ [s!"meta {t.wtype} {t.markers}"] ++
+      (match t.allocs with | none => [] | some a => showAllocs a)
+
+def prefixed (p : String) (ls : List String) : List String := ls.map fun l => p ++ " " ++ l
+
+def showSnap (k : Nat) (s : PSnap) : List String :=
+  [s!"snap {k}"]
+  ++ (s.threads.zipIdx.flatMap fun (t, i) => prefixed s!"t{i}" (showTSnap t))
+  ++ (s.counters.zipIdx.flatMap fun (c, j) => prefixed s!"c{j}" (showCOut c))
 
 def model (ls : List String) : List String :=
   match parse ls with
   | none => ["bad-op"]
-  | some (tops, cops) =>
-    match run tops with
+  | some ops =>
+    let st0 := PState.init procs nCounters
+    match snapsFrom st0 ops with
+    | some snaps => snaps.zipIdx.flatMap fun (s, k) => showSnap k s
     | none =>
-      match panicIndexFrom Thread.new 0 tops with
+      match panicIndexP st0 0 ops with
       | some j => [s!"panic op {j}"]
-      | none => ["panic op ?"]
-    | some th =>
-      match th.samples.serialize, (runC cops).serialize with
-      | some o, some co => showOut o ++ showCOut co
-      | _, _ => ["panic serialize"]
+      | none => ["panic serialize"]
 
-/-! ### Judge: the property statement (`STab.specB`, `STab.specCB`) on the implementation's own output -/
+/-! ### Judge: the property statement (`STab.specB`, `STab.specCB`) on every snapshot of the implementation's own
+output, each against the calls made before it; plus the frame clauses (weight type, marker count, allocation
+samples) -/
 
 def parseDeltas (ws : List String) : Option (List Int) := ws.mapM (·.toInt?)
 
@@ -115,25 +230,34 @@ structure Parsed where
   rows : List (Int × Option Nat × Int × Nat) := []
   clens : List Nat := []
   cdeltas : Option (List Int) := none
-  crows : List (Int × Int × Nat) := []
+  crows : List (Int × CVal × Nat) := []
+  metas : List (List String) := []
+  allocs : List (List Nat) := []
+  arows : List (Nat × Option Nat × Nat × Int) := []
   bad : Option String := none
 
-def parseImpl (impl : List String) : Parsed :=
-  impl.foldl (fun (p : Parsed) l =>
-    match words l with
+def parseImpl (impl : List (List String)) : Parsed :=
+  impl.foldl (fun (p : Parsed) lw =>
+    match lw with
     | "len" :: ws => { p with lens := ws.map nat! }
     | "deltas" :: ws => { p with deltas := parseDeltas ws, bad := if (parseDeltas ws).isNone then some "chronological: a time delta is not a finite number" else p.bad }
     | ["row", t, st, w, c] =>
       match t.toInt?, parseStack st, w.toInt?, c.toNat? with
       | some t, some st, some w, some c => { p with rows := p.rows ++ [(t, st, w, c)] }
-      | _, _, _, _ => { p with bad := some s!"unreadable row: {l}" }
+      | _, _, _, _ => { p with bad := some s!"unreadable row: {joinWords "" lw}" }
     | "clen" :: ws => { p with clens := ws.map nat! }
     | "cdeltas" :: ws => { p with cdeltas := parseDeltas ws, bad := if (parseDeltas ws).isNone then some "chronological: a counter time delta is not a finite number" else p.bad }
     | ["crow", t, v, n] =>
-      match t.toInt?, v.toInt?, n.toNat? with
+      match t.toInt?, parseCVal v, n.toNat? with
       | some t, some v, some n => { p with crows := p.crows ++ [(t, v, n)] }
-      | _, _, _ => { p with bad := some s!"unreadable counter row: {l}" }
-    | _ => { p with bad := some s!"unexpected output line: {l}" }) {}
+      | _, _, _ => { p with bad := some s!"unreadable counter row: {joinWords "" lw}" }
+    | "meta" :: ws => { p with metas := p.metas ++ [ws] }
+    | "allocs" :: ws => { p with allocs := p.allocs ++ [ws.map nat!] }
+    | ["arow", t, st, a, z] =>
+      match t.toNat?, parseStack st, a.toNat?, z.toInt? with
+      | some t, some st, some a, some z => { p with arows := p.arows ++ [(t, st, a, z)] }
+      | _, _, _, _ => { p with bad := some s!"unreadable allocation row: {joinWords "" lw}" }
+    | _ => { p with bad := some s!"unexpected output line: {joinWords "" lw}" }) {}
 
 def allEq (l : List Nat) : Bool :=
   match l with
@@ -160,37 +284,114 @@ def explainC (ops : List COp) (o : CObs) : String :=
     "lossless: serialized counter rows are not the added counter samples (as a multiset)"
   else "totals: counter sums differ"
 
-def judge (ops impl : List String) : Bool × String :=
-  match parse ops with
+/-- the weight type a thread must show: the last one set (default `samples`) -/
+def wtypeOf (i : Nat) (ops : List POp) : Nat :=
+  ops.foldl (fun acc op => match op with | .wtype j k => if j = i then k else acc | _ => acc) 0
+
+def markersOf (i : Nat) (ops : List POp) : Nat :=
+  (ops.filter fun op => match op with | .marker j => j == i | _ => false).length
+
+/-- one thread of one snapshot against the calls made before the snapshot; `none` = fine -/
+def judgeThread (i : Nat) (pre : List POp) (lines0 : List (List String)) : Option String :=
+  let lines := if lines0 = [["empty"]] then [["len", "0", "0", "0", "0", "0"], ["deltas"], ["meta", "0", "0"]] else lines0
+  let p := parseImpl lines
+  match p.bad, p.deltas with
+  | some why, _ => some why
+  | none, none => some "missing deltas line"
+  | none, some ds =>
+    if !(allEq p.lens) ∨ p.lens.length ≠ 5 then some s!"ragged sample table: lengths {p.lens}"
+    else if p.rows.length ≠ ds.length then some "row count differs from length"
+    else if p.lens.head? ≠ some ds.length then some "length field differs from column length"
+    else if p.rows.map (·.1) ≠ intSums 0 ds then
+      some "harness inconsistency: row times are not the running sums of the deltas"
+    else
+      let o : Obs := ⟨p.rows.map (·.2.1), ds, p.rows.map (·.2.2.1), p.rows.map (·.2.2.2)⟩
+      let tops := threadOps i pre
+      if !specB tops o then some (explain tops o)
+      else if p.metas ≠ [[toString (wtypeOf i pre), toString (markersOf i pre)]] then
+        some s!"frame: weight type / marker count {p.metas} ≠ {wtypeOf i pre} {markersOf i pre}"
+      else
+        let want := allocRowsOf procs i pre
+        if want.isEmpty then
+          if p.allocs.isEmpty ∧ p.arows.isEmpty then none
+          else some "frame: a nativeAllocations table although no allocation sample was routed to this thread"
+        else if p.allocs ≠ [List.replicate 6 want.length] then
+          some s!"frame: ragged / wrong-length nativeAllocations table {p.allocs}, expected {want.length} rows"
+        else if p.arows ≠ want then some "frame: nativeAllocations rows are not the allocation calls in call order"
+        else none
+
+def judgeCounter (j : Nat) (pre : List POp) (lines0 : List (List String)) : Option String :=
+  let lines := if lines0 = [["empty"]] then [["clen", "0", "0", "0", "0"], ["cdeltas"]] else lines0
+  let p := parseImpl lines
+  match p.bad, p.cdeltas with
+  | some why, _ => some why
+  | none, none => some "missing cdeltas line"
+  | none, some cds =>
+    if !(allEq p.clens) ∨ p.clens.length ≠ 4 then some s!"ragged counter table: lengths {p.clens}"
+    else if p.crows.length ≠ cds.length then some "row count differs from length"
+    else if p.clens.head? ≠ some cds.length then some "length field differs from column length"
+    else if p.crows.map (·.1) ≠ intSums 0 cds then
+      some "harness inconsistency: row times are not the running sums of the deltas"
+    else
+      let co : CObs := ⟨p.crows.map (·.2.1), p.crows.map (·.2.2), cds⟩
+      let cops := counterOps j pre
+      if !specCB cops co then some (explainC cops co) else none
+
+/-- split the output into snapshot blocks (the lines after each `snap` line) -/
+def splitSnaps (impl : List String) : List (List String) :=
+  let (cur, acc) := impl.foldl (fun (st : Option (List String) × List (List String)) l =>
+    if (words l).head? = some "snap" then
+      (some [], match st.1 with | some c => st.2 ++ [c] | none => st.2)
+    else (st.1.map (· ++ [l]), st.2)) (none, [])
+  match cur with
+  | some c => acc ++ [c]
+  | none => acc
+
+/-- the lines of slot `tag` (e.g. `t1`), split into words, without the tag -/
+def slotLines (tag : String) (block : List (List String)) : List (List String) :=
+  block.filterMap fun
+    | w :: rest => if w = tag then some rest else none
+    | [] => none
+
+def knownTags : List String :=
+  (List.range nThreads).map (fun i => s!"t{i}") ++ (List.range nCounters).map (fun j => s!"c{j}")
+
+def judgeSnap (k : Nat) (ops : List POp) (block0 : List String) : Option String :=
+  let pre := prefixAt k ops
+  let block := block0.map words
+  if block.any (fun | w :: _ => !knownTags.contains w | [] => true) then
+    some s!"snapshot {k}: unexpected output line"
+  else
+    let tr := (List.range nThreads).findSome? fun i =>
+      (judgeThread i pre (slotLines s!"t{i}" block)).map fun why => s!"snapshot {k} thread {i}: {why}"
+    match tr with
+    | some why => some why
+    | none =>
+      (List.range nCounters).findSome? fun j =>
+        (judgeCounter j pre (slotLines s!"c{j}" block)).map fun why => s!"snapshot {k} counter {j}: {why}"
+
+def judge (opLines impl : List String) : Bool × String :=
+  match parse opLines with
   | none => (false, "bad-op")
-  | some (tops, cops) =>
+  | some ops =>
     match impl with
     | [] => (false, "no output")
     | first :: _ =>
       if first.startsWith "panic" then
         -- a panic is acceptable only at the excluded point: a merged weight that does not fit `i32`
-        match firstOverflow tops with
+        match firstOverflowP nThreads ops with
         | some j =>
           if first = s!"panic op {j}" then (true, "ok (excluded point: merged weight exceeds i32)")
-          else (false, s!"implementation panicked ({first}) but the i32 weight overflow is at thread call {j}")
+          else (false, s!"implementation panicked ({first}) but the i32 weight overflow is at call {j}")
         | none => (false, s!"implementation panicked: {first}")
+      else if (words first).head? ≠ some "snap" then (false, s!"unexpected output line: {first}")
       else
-        let p := parseImpl impl
-        match p.bad, p.deltas, p.cdeltas with
-        | some why, _, _ => (false, why)
-        | none, some ds, some cds =>
-          if !(allEq p.lens) ∨ p.lens.length ≠ 5 then (false, s!"ragged sample table: lengths {p.lens}")
-          else if !(allEq p.clens) ∨ p.clens.length ≠ 4 then (false, s!"ragged counter table: lengths {p.clens}")
-          else if p.rows.length ≠ ds.length ∨ p.crows.length ≠ cds.length then (false, "row count differs from length")
-          else if p.lens.head? ≠ some ds.length ∨ p.clens.head? ≠ some cds.length then (false, "length field differs from column length")
-          else if p.rows.map (·.1) ≠ intSums 0 ds ∨ p.crows.map (·.1) ≠ intSums 0 cds then
-            (false, "harness inconsistency: row times are not the running sums of the deltas")
-          else
-            let o : Obs := ⟨p.rows.map (·.2.1), ds, p.rows.map (·.2.2.1), p.rows.map (·.2.2.2)⟩
-            let co : CObs := ⟨p.crows.map (·.2.1), p.crows.map (·.2.2), cds⟩
-            if !specB tops o then (false, explain tops o)
-            else if !specCB cops co then (false, explainC cops co)
-            else (true, "ok")
-        | _, _, _ => (false, "missing deltas / cdeltas line")
+        let blocks := splitSnaps impl
+        if blocks.length ≠ serCount ops + 1 then
+          (false, s!"{blocks.length} snapshots for {serCount ops} ser calls + the final serialization")
+        else
+          match blocks.zipIdx.findSome? fun (b, k) => judgeSnap k ops b with
+          | some why => (false, why)
+          | none => (true, "ok")
 
 end C04
